@@ -67,7 +67,9 @@ def main(argv):
         for pid in ids:
             r = subprocess.run([os.path.join(HERE, 'check'), pid, tier], env=dict(env, VERIF_REPO=dst, VERIF_NO_EVIDENCE='1'),
                                capture_output=True, text=True)
-            sigs = [ln.strip() for ln in r.stdout.splitlines() if ln.strip().startswith('signature:')]
+            sigs = [ln.strip() for ln in r.stdout.splitlines() if ln.strip().startswith("signature:")]
+            if r.returncode == 1 and not any(ln.startswith("VIOLATION property=") for ln in r.stdout.splitlines()):
+                sigs = ["HARNESS-FAILURE(no VIOLATION line)"]
             out.append(f'{pid}:rc={r.returncode}' + (' ' + '; '.join(sigs[:4]) if sigs else ''))
             if r.returncode == 2:
                 out.append(' '.join(ln for ln in r.stdout.splitlines() if ln.startswith('INCONCLUSIVE'))[:400])
